@@ -245,8 +245,9 @@ Section Deco.
      removes itself (base class is `object` in this scope) and stores back what
      `spec_cls.__new__` evaluated to at decoration time: for a staticmethod
      (every function named __new__ is one) or classmethod that is the object
-     obtained through the descriptor, not the descriptor itself.  The user's
-     object is assumed truthy. *)
+     obtained through the descriptor, not the descriptor itself (any object,
+     falsy ones included, after `fix: lazy bootstrap hook restores a falsy
+     __new__ ...`). *)
   Definition instantiate (c : cfg) (k : cls) (d : list (name * entry)) : list (name * entry) :=
     if c_lazy c then
       match lookup "__new__" (body k) with
